@@ -219,7 +219,7 @@ class World:
         for i, ent in enumerate(st["pool"]):
             with judge(ctx, "malformed-object"):
                 now = snap(ent["obj"])
-            if now != ent["snap"]:
+            if sorted(now) != sorted(ent["snap"]):
                 ctx.fail("mutated-source", f"{step['op']}", f"pool object {i} ({ent['origin']}) changed during {step['op']}: "
                                                              f"{ent['snap']} -> {now}")
 
@@ -273,9 +273,10 @@ class World:
             ctx.fail("unexpected-reject", f"ctor:{type(obj).__name__}", f"constructor rejected valid input {inp}: {obj}")
         with judge(ctx, "malformed-object"):
             got = obj.distribution_dict
-            if [tuple(k) for k in got.keys()] != [k for k, _ in items] or any(not isinstance(k, tuple) for k in got):
+            if sorted(tuple(k) for k in got.keys()) != sorted(k for k, _ in items) or any(not isinstance(k, tuple) for k in got):
                 ctx.fail("refine", "ctor-keys", f"keys {[k for k, _ in items]} -> {list(got.keys())}")
             vals = [got[k] for k, _ in items]
+            got = {k: got[k] for k, _ in items}   # (the property does not fix an iteration order)
             total = float(sum(w for _, w in items))
             if any(w == 0 for _, w in items):
                 ctx.probe("zero-weight")
